@@ -327,10 +327,17 @@ def tv(t, leaf, depth=0):
     if a is None or b is None:
         return None
     try:
-        return {'==': lambda: a == b, '!=': lambda: a != b, '<': lambda: a < b, '<=': lambda: a <= b, '>': lambda: a > b, '>=': lambda: a >= b,
-                '+': lambda: a + b, '-': lambda: a - b, '*': lambda: a * b, '&': lambda: a & b, '|': lambda: a | b}.get(op, lambda: None)()
+        r = {'==': lambda: a == b, '!=': lambda: a != b, '<': lambda: a < b, '<=': lambda: a <= b, '>': lambda: a > b, '>=': lambda: a >= b,
+             '+': lambda: a + b, '-': lambda: a - b, '*': lambda: a * b, '&': lambda: a & b, '|': lambda: a | b}.get(op, lambda: None)()
     except Exception:
         return None
+    # arithmetic in an unsigned type wraps (a difference of sizes that "cannot be negative" is the classic case)
+    if op in ('+', '-', '*') and isinstance(r, int) and not isinstance(r, bool):
+        ty = (t.get('t') or '').replace('const ', '')
+        bits = {'unsigned long': 64, 'unsigned long long': 64, 'U64': 64, 'size_t': 64, 'std::size_t': 64, 'unsigned int': 32, 'U32': 32, 'unsigned short': 16, 'unsigned char': 8}.get(ty)
+        if bits:
+            r %= (1 << bits)
+    return r
 
 
 def excluded_under(func, b, leaf, blocks=None):
